@@ -612,7 +612,8 @@ def run(ck):
                 yield a, lst[a:a + k]
         mb, gp, gt = [], [], []
         failed = None
-        for base, part in chunks(list(range(nmodel)), 400):
+        def eval_part(bp):
+            base, part = bp
             lines = ["From Common Require Import Base.", "From Css Require Import Model.", "Open Scope N_scope.",
                      "Definition cases : list (list N * list N) := ["]
             lines.append(";\n".join("(%s, %s)" % (vf.vN(allcases[i]), vf.vN(real[i])) for i in part))
@@ -627,15 +628,21 @@ Eval vm_compute in (fst (fst R)).
 Eval vm_compute in (snd (fst R)).
 Eval vm_compute in (snd R).
 """)
-            rc, out = vf.coq_run(GROUP, ck.work, "cases%d" % base, "\n".join(lines), timeout=900)
+            rc, out = vf.coq_run(GROUP, os.path.join(ck.work, "m%d" % base), "cases%d" % base, "\n".join(lines), timeout=900)
             lists = re.findall(r"=\s*(\[[^\]]*\]|nil)\s*(?:%\w+)?\s*:\s*list nat", out, re.S)
             if rc != 0 or len(lists) != 3:
-                failed = out
+                return out
+            return [[base + int(x) for x in re.findall(r"\d+", l)] for l in lists]
+        from concurrent.futures import ThreadPoolExecutor
+        with ThreadPoolExecutor(max_workers=4) as ex:
+            results = list(ex.map(eval_part, chunks(list(range(nmodel)), 120 if quick else 400)))
+        for r in results:
+            if isinstance(r, str):
+                failed = r
                 break
-            a, b_, c = [[base + int(x) for x in re.findall(r"\d+", l)] for l in lists]
-            mb += a
-            gp += b_
-            gt += c
+            mb += r[0]
+            gp += r[1]
+            gt += r[2]
         ck.cov["stage_seconds"]["model_evaluation"] = round(time.time() - t3, 1)
         if failed is not None:
             ck.violation("correspondence-eval", "model evaluation failed:\n" + failed[-1500:], replay={"log": failed[-3000:]},
